@@ -68,7 +68,7 @@ func stage2ObserveMany(rps []*Replay) []bool {
 		return make([]bool, len(rps))
 	}
 	defer os.RemoveAll(scratch)
-	gomod := "module zzreplay\n\ngo 1.23\n\nrequire (\n\tgithub.com/atombender/go-jsonschema v0.0.0\n\tgithub.com/go-viper/mapstructure/v2 v2.1.0\n\tgopkg.in/yaml.v3 v3.0.1\n)\n\nreplace github.com/atombender/go-jsonschema => /repo\n"
+	gomod := "module zzreplay\n\ngo 1.23\n\nrequire (\n\tgithub.com/atombender/go-jsonschema v0.0.0\n\tgithub.com/go-viper/mapstructure/v2 v2.1.0\n\tgopkg.in/yaml.v3 v3.0.1\n)\n\nreplace github.com/atombender/go-jsonschema => " + repoDir + "\n"
 	_ = os.WriteFile(filepath.Join(scratch, "go.mod"), []byte(gomod), 0o644)
 	if b, err := os.ReadFile(filepath.Join(engineDir, "go.sum")); err == nil {
 		_ = os.WriteFile(filepath.Join(scratch, "go.sum"), b, 0o644)
@@ -243,7 +243,7 @@ func stage2ObserveOld(rp *Replay) (bool, string) {
 		return false, err.Error()
 	}
 	defer os.RemoveAll(scratch)
-	gomod := "module zzreplay\n\ngo 1.23\n\nrequire (\n\tgithub.com/atombender/go-jsonschema v0.0.0\n\tgithub.com/go-viper/mapstructure/v2 v2.1.0\n\tgopkg.in/yaml.v3 v3.0.1\n)\n\nreplace github.com/atombender/go-jsonschema => /repo\n"
+	gomod := "module zzreplay\n\ngo 1.23\n\nrequire (\n\tgithub.com/atombender/go-jsonschema v0.0.0\n\tgithub.com/go-viper/mapstructure/v2 v2.1.0\n\tgopkg.in/yaml.v3 v3.0.1\n)\n\nreplace github.com/atombender/go-jsonschema => " + repoDir + "\n"
 	_ = os.WriteFile(filepath.Join(scratch, "go.mod"), []byte(gomod), 0o644)
 	if b, err := os.ReadFile(filepath.Join(engineDir, "go.sum")); err == nil {
 		_ = os.WriteFile(filepath.Join(scratch, "go.sum"), b, 0o644)
